@@ -32,6 +32,22 @@ class ADict:
         return "%s%s" % (self.label, self.data)
 
 
+class Raised(Exception):
+    """the interpreted code raised an exception"""
+
+
+class CallableToken:
+    """stands for a caller-supplied callable object"""
+    def __repr__(self):
+        return "<callable>"
+
+
+class OtherToken:
+    """stands for a value that is neither a string nor callable (e.g. an int)"""
+    def __repr__(self):
+        return "<other>"
+
+
 class _Return(Exception):
     def __init__(self, v):
         self.v = v
@@ -78,9 +94,25 @@ class DictInterp:
             d, k = self.ev(e.value), self.ev(e.slice)
             if isinstance(d, ADict):
                 if k not in d.data:
-                    raise Unsupported("KeyError %r" % (k,))
+                    raise Raised("KeyError %r" % (k,))
                 return d.data[k]
+            if isinstance(d, (list, tuple)) and isinstance(k, int):
+                if -len(d) <= k < len(d):
+                    return d[k]
+                raise Raised("IndexError")
             raise Unsupported(ast.unparse(e))
+        if isinstance(e, ast.BinOp) and isinstance(e.op, ast.Mod) and isinstance(e.left, ast.Constant) and isinstance(e.left.value, str):
+            return "<message>"
+        if isinstance(e, ast.JoinedStr):
+            return "<message>"
+        if isinstance(e, (ast.ListComp, ast.GeneratorExp)) and len(e.generators) == 1:
+            g = e.generators[0]
+            out_l = []
+            for item in self.iterate(g.iter):
+                self.bind(g.target, item)
+                if all(self.truth(c_) for c_ in g.ifs):
+                    out_l.append(self.ev(e.elt))
+            return out_l
         if isinstance(e, ast.BinOp) and isinstance(e.op, ast.BitOr):
             l, r = self.ev(e.left), self.ev(e.right)
             if isinstance(l, ADict) and isinstance(r, ADict):
@@ -101,6 +133,12 @@ class DictInterp:
 
     def call(self, c: ast.Call):
         fn = ast.unparse(c.func)
+        if fn == "isinstance" and len(c.args) == 2:
+            v = self.ev(c.args[0])
+            types = [ast.unparse(t) for t in (c.args[1].elts if isinstance(c.args[1], ast.Tuple) else [c.args[1]])]
+            if all(t in ("str", "bytes") for t in types):
+                return isinstance(v, str) and "str" in types
+            raise Unsupported("isinstance(.., %s)" % types)
         args = [self.ev(a) for a in c.args if not isinstance(a, ast.Starred)]
         kws = {k.arg: self.ev(k.value) for k in c.keywords if k.arg}
         star = [self.ev(k.value) for k in c.keywords if k.arg is None]
@@ -116,11 +154,44 @@ class DictInterp:
             return out
         if fn == "len" and len(args) == 1 and isinstance(args[0], ADict):
             return len(args[0].data)
+        if fn == "len" and len(args) == 1 and isinstance(args[0], (list, tuple, str)):
+            return len(args[0])
+        if fn == "isinstance" and len(c.args) == 2:
+            v = args[0]
+            types = [ast.unparse(t) for t in (c.args[1].elts if isinstance(c.args[1], ast.Tuple) else [c.args[1]])]
+            if all(t in ("str", "bytes") for t in types):
+                return isinstance(v, str) and "str" in types
+            raise Unsupported("isinstance(.., %s)" % types)
+        if fn == "callable" and len(args) == 1:
+            return isinstance(args[0], CallableToken)
+        if fn == "hasattr" and len(args) == 2 and args[1] == "__call__":
+            return isinstance(args[0], CallableToken)
+        if fn == "str" and len(args) == 1:
+            return str(args[0])
+        if fn in ("RuntimeError", "ValueError", "KeyError", "TypeError", "NotImplementedError"):
+            return ("exc", fn)
+        if fn == "iter" and len(args) == 1:
+            return list(args[0].data) if isinstance(args[0], ADict) else list(args[0])
+        if fn == "next" and 1 <= len(args) <= 2 and isinstance(args[0], list):
+            if args[0]:
+                return args[0][0]
+            if len(args) == 2:
+                return args[1]
+            raise Raised("StopIteration")
+        if fn in ("min", "max") and len(args) == 1 and isinstance(args[0], list) and args[0] and all(isinstance(x, str) for x in args[0]):
+            return min(args[0]) if fn == "min" else max(args[0])
         if fn in ("list", "tuple", "sorted") and len(args) == 1:
             return list(args[0]) if not isinstance(args[0], ADict) else list(args[0].data)
         if isinstance(c.func, ast.Attribute):
             recv = self.ev(c.func.value)
             m = c.func.attr
+            if isinstance(recv, str) and not recv.startswith("$"):
+                if m in ("lower", "upper", "strip", "casefold") and not args:
+                    return getattr(recv, m)()
+                if m in ("startswith", "endswith") and len(args) == 1 and isinstance(args[0], str):
+                    return getattr(recv, m)(args[0])
+                if m == "format":
+                    return "<message>"
             if isinstance(recv, ADict):
                 if m == "copy" and not args:
                     return recv.copy()
@@ -187,6 +258,8 @@ class DictInterp:
         v = self.ev(e)
         if isinstance(v, ADict):
             return bool(v.data)
+        if isinstance(v, (CallableToken, OtherToken)):
+            return True
         if isinstance(v, str) and v.startswith("$"):
             raise Unsupported("truth value of a symbolic option value")
         return bool(v)
@@ -263,6 +336,11 @@ class DictInterp:
                     self.run(s.orelse)
             elif isinstance(s, ast.Return):
                 raise _Return(self.ev(s.value) if s.value is not None else None)
+            elif isinstance(s, ast.Raise):
+                raise Raised(ast.unparse(s.exc)[:60] if s.exc is not None else "re-raise")
+            elif isinstance(s, ast.Assert):
+                if not self.truth(s.test):
+                    raise Raised("assert")
             elif isinstance(s, ast.Break):
                 raise _Break()
             elif isinstance(s, ast.Continue):
@@ -311,4 +389,29 @@ def check_merge(fnode: ast.FunctionDef, defname: str, optname: str):
             problems.append("%s: returns one of its arguments instead of a fresh dictionary (a later change of either dict changes the other)" % scen)
         if d.data != before_d or o.data != before_o:
             problems.append("%s: mutates its argument (%s)" % (scen, "defaults" if d.data != before_d else "options"))
+    return problems
+
+
+def check_lookup(fnode: ast.FunctionDef, algname: str, tblname: str, mthname: str):
+    """Evaluate a name -> implementation lookup helper on the scenarios of the specification: exact (case-insensitive) names return
+    their own entry, anything else that is a string raises, a callable passes through unchanged, a non-string non-callable raises.
+    The table contains a key that is a prefix of another key and the probes include proper prefixes, so an abbreviation / fuzzy
+    match is visible.  Returns a list of problems."""
+    table = {"rk4": "$F_rk4", "rk45": "$F_rk45", "euler": "$F_euler"}
+    cb = CallableToken()
+    probes = [("rk4", "$F_rk4"), ("RK4", "$F_rk4"), ("rk45", "$F_rk45"), ("Euler", "$F_euler"),
+              ("rk", Raised), ("eul", Raised), ("rk456", Raised), ("", Raised), ("nope", Raised), (cb, cb), (OtherToken(), Raised)]
+    problems = []
+    for probe, want in probes:
+        t = ADict(table, "methods")
+        it = DictInterp({algname: "alg", tblname: t, mthname: probe})
+        try:
+            got = it.call_function(fnode)
+        except Raised:
+            got = Raised
+        shown = lambda v: "an exception" if v is Raised else repr(v)
+        if got is not want and got != want:
+            problems.append("method=%r: returns %s, expected %s" % (probe, shown(got), shown(want)))
+        if t.data != table:
+            problems.append("method=%r: the table is modified" % (probe,))
     return problems
